@@ -271,6 +271,7 @@ void treset()
 void tplan_common(int tier, int global)
 {
   tplan.global_api = global;
+  sim_set_tso(sim_plan(4) == 0);
   static const unsigned chunks[] = {2, 3, 8, 8192};
   tplan.chunk = chunks[sim_plan(4)];
   int maxt = tier ? 8 : 4;
